@@ -1,6 +1,111 @@
 import DdsModel.Drv.Util
+import DdsModel.BcTables
+import DdsModel.Bc7
+import DdsModel.Bc7Spec
+import DdsModel.Bc6
+import DdsModel.Bc6Spec
+/-!
+Driver section of C03x: runs the implementation-shaped models `Bc7.decodeBlock` / `Bc6.decodeBlock`
+(+ the output-precision conversions) on the blocks of a case line and prints one FNV-1a-32 hash per block
+over U8 ++ U16(le) ++ F32(le) of the 16 pixels; `tbl` lines print the model's copy of the source literals.
+-/
 namespace Dds.Drv
+open Dds.BcTables
 
-def runC03x (_line : String) : String := "not-modelled"
+def hexVal (c : UInt8) : Option Nat :=
+  if 48 ≤ c ∧ c ≤ 57 then some (c.toNat - 48)
+  else if 97 ≤ c ∧ c ≤ 102 then some (c.toNat - 87)
+  else none
+
+/-- blocks of a hex string as little-endian 128-bit numbers -/
+def parseBlocks (hex : String) : Option (List Nat) := do
+  let bs := hex.toUTF8
+  if bs.size % 32 ≠ 0 ∨ bs.size = 0 then none
+  let n := bs.size / 32
+  let mut out : Array Nat := Array.mkEmpty n
+  for k in [0:n] do
+    let mut v : Nat := 0
+    -- byte i of the block is hex digits 2i, 2i+1; little endian: build from the last byte down
+    for i' in [0:16] do
+      let i := 15 - i'
+      let hi ← hexVal (bs.get! (k * 32 + 2 * i))
+      let lo ← hexVal (bs.get! (k * 32 + 2 * i + 1))
+      v := v * 256 + (hi * 16 + lo)
+    out := out.push v
+  return out.toList
+
+def fnvByte (h : UInt32) (b : Nat) : UInt32 := (h ^^^ (UInt32.ofNat (b % 256))) * 0x01000193
+
+def fnvLE (bytes : Nat) (h : UInt32) (v : Nat) : UInt32 :=
+  (List.range bytes).foldl (fun h i => fnvByte h (v >>> (8 * i))) h
+
+def hex8 (h : UInt32) : String :=
+  let s := (Nat.toDigits 16 h.toNat)
+  String.ofList (List.replicate (8 - s.length) '0' ++ s)
+
+/-- hash of one block given its flat value lists at the three precisions -/
+def hashBlock (u8s u16s f32s : List Nat) : String :=
+  let h : UInt32 := 0x811c9dc5
+  let h := u8s.foldl (fnvLE 1) h
+  let h := u16s.foldl (fnvLE 2) h
+  let h := f32s.foldl (fnvLE 4) h
+  hex8 h
+
+def runBc7 (b : Nat) : String :=
+  let px := (Bc7.decodeBlock b).flatten
+  hashBlock px (px.map Bc7Spec.unorm8To16) (px.map Bc7Spec.unorm8ToF32)
+
+def runBc6 (signed : Bool) (b : Nat) : String :=
+  let hs := (Bc6.decodeBlock signed b).flatten
+  if signed then hashBlock (hs.map Bc6.fp16N8) (hs.map Bc6.fp16N16) (hs.map Bc6.fp16F32)
+  else hashBlock (hs.map Bc6.uf16N8) (hs.map Bc6.uf16N16) (hs.map Bc6.uf16F32)
+
+def litStr (l : List Nat) : String := String.ofList (l.map fun d => if d = 9 then '-' else Char.ofNat (48 + d))
+
+def commaNats (l : List Nat) : String := ",".intercalate (l.map toString)
+
+def opStr (o : Bc6.Op) : String :=
+  let c := if o.chan = 0 then "r" else if o.chan = 1 then "g" else "b"
+  let e := if o.ep = 0 then "w" else if o.ep = 1 then "x" else if o.ep = 2 then "y" else "z"
+  if o.range then s!"{c}{e}{o.bit}..0" else s!"{c}{e}{o.bit}"
+
+def modeTwoByName (s : String) : Option Bc6.ModeTwo :=
+  match s with
+  | "M10_555" => some .M10_555 | "M7_666" => some .M7_666 | "M11_544" => some .M11_544
+  | "M11_454" => some .M11_454 | "M11_445" => some .M11_445 | "M9_555" => some .M9_555
+  | "M8_655" => some .M8_655 | "M8_565" => some .M8_565 | "M8_556" => some .M8_556
+  | "M6_666" => some .M6_666 | _ => none
+
+def runTbl (name arg : String) : String :=
+  match name with
+  | "p2" => match arg.toNat? with
+    | some i => if i < 64 then "s " ++ litStr (lit 17 (implP2Lit.getD i 0)) else "bad-case"
+    | none => "bad-case"
+  | "p3" => match arg.toNat? with
+    | some i => if i < 64 then "s " ++ litStr (lit 18 (implP3Lit.getD i 0)) else "bad-case"
+    | none => "bad-case"
+  | "w7_2" => "w " ++ commaNats implW7_2
+  | "w7_3" => "w " ++ commaNats implW7_3
+  | "w7_4" => "w " ++ commaNats implW7_4
+  | "w6_3" => "w " ++ commaNats implW6_3
+  | "w6_4" => "w " ++ commaNats implW6_4
+  | "m6" => match modeTwoByName arg with
+    | some m => "m " ++ ",".intercalate ((Bc6.modeTwoOps m).map opStr)
+    | none => "bad-case"
+  | _ => "bad-case"
+
+def runC03x (line : String) : String :=
+  match toks line with
+  | ["tbl", name, arg] => runTbl name arg
+  | [kind, w, hex] =>
+    match w.toNat?, parseBlocks hex with
+    | some w, some blocks =>
+      if w = 0 ∨ blocks.length % w ≠ 0 then "bad-case"
+      else if kind = "b7" then "ok " ++ joinSp (blocks.map runBc7)
+      else if kind = "b6u" then "ok " ++ joinSp (blocks.map (runBc6 false))
+      else if kind = "b6s" then "ok " ++ joinSp (blocks.map (runBc6 true))
+      else "bad-case"
+    | _, _ => "bad-case"
+  | _ => "bad-case"
 
 end Dds.Drv
